@@ -338,6 +338,66 @@ fn main() {
                 }
                 (rustfmt(&text), span)
             }
+            "tail" => {
+                // R16': the tail expression of a function becomes a function of the locals it reads (declared by the unit)
+                let (fsig, block, _attrs, _span, _shell) = match find_fn(&file, item) {
+                    Some(x) => x,
+                    None => fail("anchor-lost", format!("{}: fn {:?} in {}", name, s(item, "ident"), file_rel)),
+                };
+                let tail = match block.stmts.last() {
+                    Some(Stmt::Expr(e, None)) => e.clone(),
+                    _ => fail("anchor-lost", format!("{}: fn {} has no tail expression", name, fsig.ident)),
+                };
+                let span = full_span(&tail);
+                let as_fn = s(item, "as_fn").unwrap_or(name.clone());
+                let mut body: Block = parse_quote! { { #tail } };
+                rules::apply_all(&mut body, item, &mut fired, &name);
+                rules::mark_ret(&mut body, &as_fn, false);
+                let mut params: Vec<TokenStream> = vec![];
+                if let Some(a) = item.get("params").and_then(|x| x.as_array()) {
+                    for p in a {
+                        let p = p.as_array().unwrap();
+                        let n = Ident::new(p[0].as_str().unwrap(), Span::call_site());
+                        let t: Type = syn::parse_str(p[1].as_str().unwrap()).unwrap();
+                        params.push(quote! { #n: #t });
+                    }
+                }
+                let gen: TokenStream = s(item, "generics").map(|g| syn::parse_str(&g).unwrap()).unwrap_or_default();
+                let ret: Type = syn::parse_str(&s(item, "ret").expect("ret")).unwrap();
+                let fid = Ident::new(&as_fn, Span::call_site());
+                fired.push("R16'-tail-expression".into());
+                (rustfmt(&quote! { fn #fid #gen (#(#params),*) -> vx_ret!(#ret) #body }.to_string()), span)
+            }
+            "call_arg" => {
+                // syntactic side condition: the token text of argument `arg` of the `nth` call of `call` in the fn
+                let (fsig, block, _attrs, span, _shell) = match find_fn(&file, item) {
+                    Some(x) => x,
+                    None => fail("anchor-lost", format!("{}: fn {:?} in {}", name, s(item, "ident"), file_rel)),
+                };
+                let call = s(item, "call").expect("call");
+                let nth = item.get("nth").and_then(|x| x.as_u64()).unwrap_or(0) as usize;
+                let arg = item.get("arg").and_then(|x| x.as_u64()).unwrap_or(0) as usize;
+                struct ArgFinder<'a> { call: &'a str, nth: usize, arg: usize, seen: usize, found: Option<String> }
+                impl<'a, 'ast> Visit<'ast> for ArgFinder<'a> {
+                    fn visit_expr_method_call(&mut self, e: &'ast ExprMethodCall) {
+                        self.visit_expr(&e.receiver);
+                        if e.method == self.call {
+                            if self.seen == self.nth && self.found.is_none() {
+                                self.found = e.args.iter().nth(self.arg).map(|a| norm(a));
+                            }
+                            self.seen += 1;
+                        }
+                        for a in e.args.iter() { self.visit_expr(a); }
+                    }
+                }
+                let mut af = ArgFinder { call: &call, nth, arg, seen: 0, found: None };
+                af.visit_block(&block);
+                let _ = fsig;
+                match af.found {
+                    Some(t) => (t, span),
+                    None => fail("anchor-lost", format!("{}: call #{} of `{}` arg {} in fn {:?}", name, nth, call, arg, s(item, "ident"))),
+                }
+            }
             "closure" => {
                 let (fsig, block, _attrs, _span, _shell) = match find_fn(&file, item) {
                     Some(x) => x,
